@@ -1,5 +1,6 @@
 import LasModel.Props.C19
-open LasModel.Props.C19
+import LasModel.Props.C19Retry
+open LasModel.Props.C19 LasModel.Props.C19Retry
 #print axioms C19_torn_counter
 #print axioms C19_truncated_counter
 #print axioms splitRecs_prefix
@@ -21,3 +22,7 @@ open LasModel.Props.C19
 #print axioms C19_rewrite_session_cut
 #print axioms C19_writer_crash_torn
 #print axioms C19_appender_crash_torn
+#print axioms C19_count_after_write
+#print axioms C19_retry
+#print axioms readFile_form_tail
+#print axioms C19_retry_read
